@@ -46,7 +46,7 @@ def make_curve(cx, degree, kv, ctrl, weights=None, normalize_kv=False, **kw):
         c = M('BSpline').Curve(normalize_kv=normalize_kv, **kw)
         c.degree = degree
         c.ctrlpts = [list(p) for p in ctrl]
-    c.knotvector = list(kv)
+    c.knotvector = kv if isinstance(kv, tuple) else list(kv)
     return c
 
 
@@ -59,8 +59,8 @@ def make_surface(cx, du, dv, kvu, kvv, su, sv, ctrl, weights=None, normalize_kv=
         s = M('BSpline').Surface(normalize_kv=normalize_kv, **kw)
         s.degree_u, s.degree_v = du, dv
         s.set_ctrlpts([list(p) for p in ctrl], su, sv)
-    s.knotvector_u = list(kvu)
-    s.knotvector_v = list(kvv)
+    s.knotvector_u = kvu if isinstance(kvu, tuple) else list(kvu)
+    s.knotvector_v = kvv if isinstance(kvv, tuple) else list(kvv)
     return s
 
 
@@ -73,5 +73,5 @@ def make_volume(cx, degs, kvs, sizes, ctrl, weights=None, normalize_kv=False, **
         v = M('BSpline').Volume(normalize_kv=normalize_kv, **kw)
         v.degree_u, v.degree_v, v.degree_w = degs
         v.set_ctrlpts([list(p) for p in ctrl], *sizes)
-    v.knotvector_u, v.knotvector_v, v.knotvector_w = [list(k) for k in kvs]
+    v.knotvector_u, v.knotvector_v, v.knotvector_w = [k if isinstance(k, tuple) else list(k) for k in kvs]
     return v
